@@ -26,6 +26,11 @@ def pipeline_case(draw, rx_strategy, min_rx=1, max_rx=6, n_jobs_choices=(1,), th
         # the same reaction twice in one batch (identical text), at a drawn position
         k = draw(st.integers(0, len(items) - 1))
         items.insert(draw(st.integers(0, len(items))), (items[k][0], list(items[k][1]) + ["duplicate"]))
+    if draw(st.integers(0, 7)) == 0:
+        # a malformed sibling row somewhere in the batch: the valid rows around it are still judged (and state that a
+        # malformed row leaves behind on the Balancer is carried into the following cases of the shard)
+        bad = draw(st.sampled_from(["xx>>yy", "CCO", "C1CC>>CC", "", "CCO>O>CC=O"]))
+        items.insert(draw(st.integers(0, len(items))), (bad, ["malformed-sibling"]))
     rxs = [i[0] for i in items]
     tags = [i[1] for i in items]
     n = len(rxs)
@@ -34,7 +39,12 @@ def pipeline_case(draw, rx_strategy, min_rx=1, max_rx=6, n_jobs_choices=(1,), th
     t = draw(threshold) if threshold is not None else 0
     # the reaction column name is configuration: mostly the default, sometimes another key (rows are then dicts)
     col = draw(st.sampled_from(["reaction", "reaction", "reaction", "rxn", "smiles"]))
-    return {"reactions": rxs, "tags": tags, "batch_size": bs, "n_jobs": nj, "threshold": t, "col": col}
+    case = {"reactions": rxs, "tags": tags, "batch_size": bs, "n_jobs": nj, "threshold": t, "col": col}
+    if draw(st.integers(0, 7)) == 0:
+        # result caching is configuration as well: the judged run uses a cache directory that an earlier run of the
+        # same inputs under another threshold has already filled
+        case["cache_prelude"] = draw(st.sampled_from([0, 0.5, 0.9, 1.0]))
+    return case
 
 
 def closed_shell_rx(strategy):
@@ -44,10 +54,16 @@ def closed_shell_rx(strategy):
 def execute(case):
     """-> (rows, stats, error). error is a string when rebalance raised."""
     col = case.get("col", "reaction")
+    cache_dir = None
     try:
         data = case["reactions"] if col == "reaction" else [{col: r} for r in case["reactions"]]
+        if case.get("cache_prelude") is not None:
+            import tempfile
+            cache_dir = tempfile.mkdtemp(prefix="synverif-pre-", dir="/var/tmp")
+            pipe.run(data, batch_size=case.get("batch_size"), n_jobs=case.get("n_jobs", 1),
+                     threshold=case["cache_prelude"], reaction_col=col, cache_dir=cache_dir)
         rows, stats = pipe.run(data, batch_size=case.get("batch_size"), n_jobs=case.get("n_jobs", 1),
-                               threshold=case.get("threshold", 0), reaction_col=col)
+                               threshold=case.get("threshold", 0), reaction_col=col, cache_dir=cache_dir)
         if col != "reaction":
             # the oracles read the result under 'reaction'; a row that also carries a stray 'reaction' key is reported
             fixed = []
@@ -61,6 +77,10 @@ def execute(case):
         return rows, stats, None
     except Exception as e:  # the API raising on valid input is itself reportable by callers
         return None, None, "%s: %s" % (type(e).__name__, e)
+    finally:
+        if cache_dir is not None:
+            import shutil
+            shutil.rmtree(cache_dir, ignore_errors=True)
 
 
 def added_molecules(inp, out):
@@ -104,6 +124,8 @@ def row_classes(inp, row):
 # ------------------------------------------------------------------- row oracles
 
 def c01_row(res, i, inp, row):
+    if not valid_input(inp):
+        return   # malformed sibling rows are C05's business
     if not row.get("solved"):
         return
     rx = row.get("reaction")
@@ -119,6 +141,8 @@ def c01_row(res, i, inp, row):
 
 
 def c02_row(res, i, inp, row):
+    if not valid_input(inp):
+        return   # malformed sibling rows are C05's business
     rx = row.get("reaction")
     ir = row.get("input_reaction")
     if not isinstance(inp, str) or oracle.split_reaction(inp) is None:
@@ -152,6 +176,8 @@ def c02_row(res, i, inp, row):
 
 
 def c03_row(res, i, inp, row):
+    if not valid_input(inp):
+        return   # malformed sibling rows are C05's business
     rx = row.get("reaction")
     ir = row.get("input_reaction")
     issue = row.get("issue")
@@ -173,6 +199,8 @@ def c03_row(res, i, inp, row):
 
 
 def c04_row(res, i, inp, row, direction="both"):
+    if not valid_input(inp):
+        return
     b = oracle.balanced(inp) if isinstance(inp, str) else None
     rx = row.get("reaction")
     if b and direction in ("both", "forward"):
